@@ -13,6 +13,8 @@ use std::rc::Rc;
 const MAX_FRAMES: usize = 100_000;
 const MAX_HEAP_SLOTS: u64 = 8_000_000;
 const MAX_CHOICES_RECORDED: usize = 100_000;
+const MAX_GOROUTINES: usize = 256;
+const MAX_STRING_BYTES: u64 = 256 << 20;
 
 struct Frame {
     func: u32,
@@ -61,6 +63,7 @@ struct Vm<'a> {
     events: Vec<Event>,
     steps: u64,
     heap_slots: u64,
+    string_bytes: u64,
     sched_choices: Vec<(u32, u32)>,
     choice_no: usize,
     rng: u64,
@@ -84,6 +87,7 @@ pub fn execute(prog: &Program, info: &Info, cfg: &RunConfig) -> RunResult {
         events: Vec::new(),
         steps: 0,
         heap_slots: 0,
+        string_bytes: 0,
         sched_choices: Vec::new(),
         choice_no: 0,
         rng: match &cfg.sched {
@@ -1005,7 +1009,7 @@ impl<'a> Vm<'a> {
     }
 
     fn spawn(&mut self, func: u32, args: Vec<Value>) -> Result<(), Stop> {
-        if self.gs.len() >= 10_000 {
+        if self.gs.iter().filter(|g| !g.done).count() >= MAX_GOROUTINES || self.gs.len() >= 4 * MAX_GOROUTINES {
             return Err(Stop::Exit(Exit::Budget));
         }
         let prog: &'a Program = self.prog;
@@ -1241,8 +1245,8 @@ impl<'a> Vm<'a> {
                     let mut v = Vec::with_capacity(a.len() + b.len());
                     v.extend_from_slice(&a);
                     v.extend_from_slice(&b);
-                    self.heap_slots += (v.len() as u64) / 24 + 1;
-                    if self.heap_slots > MAX_HEAP_SLOTS * 4 {
+                    self.string_bytes += v.len() as u64;
+                    if self.string_bytes > MAX_STRING_BYTES {
                         return Err(Stop::Exit(Exit::Budget));
                     }
                     Value::Str(Rc::from(v))
